@@ -871,3 +871,85 @@ def u_reader_init(ctx, cls, given, degrees, opt):
     ctx.check(f"{name}/post:column_map", dict(r._columns) == want_cols and list(r._columns) == list(want_cols))
     ctx.check(f"{name}/post:chunk_info", r._chunk_info.has_weights == opt and r._chunk_info.has_redshifts == opt and r._chunk_info.has_patch_ids == opt)
     ctx.check(f"{name}/post:record_count_and_start", And(r._num_records == n, r._num_samples == 0))
+
+
+# ---------------------------------------------------------------------------------------------------------
+# the public constructors forward every argument (non-default sentinels all the way down)
+# ---------------------------------------------------------------------------------------------------------
+
+@unit(P, "Catalog.from_*.arguments", fuc=["yaw.catalog.catalog:Catalog.from_dataframe", "yaw.catalog.catalog:Catalog.from_file", "yaw.catalog.catalog:Catalog.from_random",
+                                         "yaw.catalog.catalog:new_filereader"],
+      cases=[dict(which=w, mode=m) for w in ("from_dataframe", "from_file", "from_random") for m in ("apply", "divide", "create") if not (w == "from_random" and m == "divide")])
+def u_from_args(ctx, which, mode):
+    """every argument of the public constructors reaches the layer that uses it, on every path: column names, unit flag and chunk
+    size the reader; probe size and patch number the centre generation; cache directory, centres, overwrite, progress and worker
+    limit the writer; centres, progress and worker limit the loader; the returned catalog holds the loaded patches"""
+    C = mod("yaw.catalog.catalog")
+    got = {}
+    S = {k: ("SENTINEL", k) for k in ("df", "gen", "W", "Z", "cs", "centers", "mw", "probe", "extra")}
+    name = f"C18/Catalog.{which}.arguments"
+
+    class FakeReader:
+        def __init__(self, *a, **k):
+            got["reader"] = (a, k)
+
+    def create_patch_centers(reader, patch_num, probe_size):
+        got["create"] = (reader, patch_num, probe_size)
+        return "GENERATED"
+
+    def write_patches(path, reader, patch_centers, **k):
+        got["write"] = (path, reader, patch_centers, k)
+
+    def load_patches(cache_directory, **k):
+        got["load"] = (cache_directory, k)
+        return {"loaded": True}
+    pnum = ctx.fresh_int("patch_num", lo=1, hi=32767)
+    nrand = ctx.fresh_int("num_randoms", lo=1)
+    CO = mod("yaw.coordinates")
+    S["centers"] = CO.AngularCoordinates.__new__(CO.AngularCoordinates)
+    import numpy as _np
+    S["centers"].data = _np.zeros((1, 2))
+    with Patches() as pt:
+        pt.set(C, "DataFrameReader", FakeReader)
+        pt.set(C, "RandomReader", FakeReader)
+        if which == "from_file":
+            R = mod("yaw.catalog.readers")
+            for cls in ("FitsReader", "HDFReader", "ParquetReader"):
+                pt.set(R, cls, FakeReader)
+        pt.set(C, "create_patch_centers", create_patch_centers)
+        pt.set(C, "write_patches", write_patches)
+        pt.set(C, "load_patches", load_patches)
+        ctx.canary()
+        pm = dict(patch_centers=S["centers"] if mode == "apply" else None, patch_num=pnum if mode == "create" else None)
+        common = dict(overwrite=True, progress=True, max_workers=S["mw"], chunksize=S["cs"], probe_size=S["probe"])
+        cols = dict(ra_name="RA", dec_name="DEC", weight_name=S["W"], redshift_name=S["Z"], patch_name="PID" if mode == "divide" else None, degrees=False)
+        if which == "from_dataframe":
+            res = call(C.Catalog.from_dataframe, "/cache", S["df"], **cols, **pm, **common, extra=S["extra"])
+        elif which == "from_file":
+            res = call(C.Catalog.from_file, "/cache", "/data/in.hdf5", **cols, **pm, **common, extra=S["extra"])
+        else:
+            res = call(C.Catalog.from_random, "/cache", S["gen"], nrand, **pm, **common)
+        res = expect_no_exception(ctx, res, name)
+    a, k = got.get("reader", ((), {}))
+    if which == "from_random":
+        ctx.check(f"{name}/post:reader_gets_generator_number_and_chunk_size", tuple(a) + tuple(k.values()) == (S["gen"], nrand, S["cs"]) or (a[:2] == (S["gen"], nrand) and (list(a[2:]) + [k.get("chunksize")])[0] is S["cs"]))
+    else:
+        ctx.check(f"{name}/post:reader_gets_the_source", len(a) == 1 and (a[0] is S["df"] if which == "from_dataframe" else str(a[0]) == "/data/in.hdf5"))
+        want = dict(cols, chunksize=S["cs"], extra=S["extra"])
+        ctx.check(f"{name}/post:reader_gets_columns_unit_flag_chunk_size_and_extra_arguments", k == want, detail=f"{k} instead of {want}")
+    reader_obj = got["write"][1] if "write" in got else None
+    if mode == "create":
+        ctx.check(f"{name}/post:centres_generated_from_the_reader_with_patch_num_and_probe_size", got.get("create") is not None and got["create"][0] is reader_obj
+                  and got["create"][1] is pnum and got["create"][2] is S["probe"])
+    else:
+        ctx.check(f"{name}/post:no_centre_generation", "create" not in got)
+    centres = {"apply": S["centers"], "divide": None, "create": "GENERATED"}[mode]
+    same = lambda x: x is centres   # noqa: E731
+    w = got.get("write")
+    ctx.check(f"{name}/post:writer_gets_directory_reader_centres_and_options", w is not None and str(w[0]) == "/cache" and isinstance(w[1], FakeReader) and same(w[2])
+              and w[3].get("overwrite") is True and w[3].get("progress") is True and w[3].get("max_workers") is S["mw"],
+              detail=str(w))
+    ld = got.get("load")
+    ctx.check(f"{name}/post:loader_gets_directory_centres_and_options", ld is not None and str(ld[0]) == "/cache" and same(ld[1].get("patch_centers"))
+              and ld[1].get("progress") is True and ld[1].get("max_workers") is S["mw"], detail=str(ld))
+    ctx.check(f"{name}/post:catalog_holds_the_loaded_patches", res._patches == {"loaded": True} and str(res.cache_directory) == "/cache")
